@@ -1,2 +1,109 @@
--- driver stub for C14 (replaced when the model is built)
-def main : IO Unit := pure ()
+import PyramidModel.Prelude
+import PyramidModel.ViewLookupJson
+import PyramidModel.Lemmas.ExcViewSpec
+/-! Driver for C14: one JSON case per line (see `harness/c14.py: model_input`).
+in : {"stmts":[{req,ctx,name,preds,accept,perm:"unset"|"npr"|"named",isexc,xonly,tag,body:["respond"]|["ctx"]|["raise",exc]}…],
+      "world":{"policy":b,"defperm":b,"nf":exc,"mm":exc,"fb":exc,"xnf":exc,"xmm":exc,"xfb":exc},
+      "site":["early",exc]|["lookup"], "req":request, "comb":[n…], "ctxobj":n, "attrs":[[k,v]…]}
+     exc = {"id":n,"sro":[n…],"nf":b,"status":n|null}
+out: {"out":…, "seen":…, "attrs":[exception,exc_info,response], "caught":id|null, "spec":{same three},
+      "main":outcome of the main lookup, "exc":outcome of the exception lookup (null if nothing was caught),
+      "cands":[tags of the competing exception views], "coherent":b, "wf":b, "derived":[[order,phash,#preds]…per reg]} -/
+open Pyr Pyr.ViewLookup Pyr.ExcView Lean
+open Pyr.ViewLookup.Drv
+
+def parseExc (j : Json) : Except String Exc := do
+  let id ← (← j.getObjVal? "id").getNat?
+  let sro ← natList (← j.getObjVal? "sro")
+  let nf ← (← j.getObjVal? "nf").getBool?
+  let st ← optNat (← j.getObjVal? "status")
+  pure ⟨id, sro, nf, st⟩
+
+def parseBody (j : Json) : Except String Body :=
+  match j with
+  | .arr #[.str "respond"] => pure .respond
+  | .arr #[.str "ctx"] => pure .returnContext
+  | .arr #[.str "raise", e] => do pure (.raise (← parseExc e))
+  | _ => throw "bad body"
+
+def parseStmt (j : Json) : Except String Stmt := do
+  let rq ← (← j.getObjVal? "req").getNat?
+  let cx ← (← j.getObjVal? "ctx").getNat?
+  let name ← (← j.getObjVal? "name").getStr?
+  let preds ← (← (← j.getObjVal? "preds").getArr?).toList.mapM parsePred
+  let acc ← match (← j.getObjVal? "accept") with
+    | .null => pure none
+    | a => do pure (some (← parseOffer a))
+  let perm ← match (← (← j.getObjVal? "perm").getStr?) with
+    | "unset" => pure Perm.unset
+    | "npr" => pure Perm.noPermissionRequired
+    | "named" => pure Perm.named
+    | p => throw s!"bad perm {p}"
+  let isexc ← (← j.getObjVal? "isexc").getBool?
+  let xonly ← (← j.getObjVal? "xonly").getBool?
+  let tag ← (← j.getObjVal? "tag").getNat?
+  let body ← parseBody (← j.getObjVal? "body")
+  pure ⟨rq, cx, name, preds, acc, perm, isexc, xonly, tag, body⟩
+
+def parseWorld (j : Json) : Except String World := do
+  let e := fun (f : String) => do parseExc (← j.getObjVal? f)
+  pure { sec := ⟨← (← j.getObjVal? "policy").getBool?, ← (← j.getObjVal? "defperm").getBool?⟩,
+         notFound := ← e "nf", mismatch := ← e "mm", forbidden := ← e "fb",
+         excNotFound := ← e "xnf", excMismatch := ← e "xmm", excForbidden := ← e "xfb" }
+
+def parseSite (j : Json) : Except String Site :=
+  match j with
+  | .arr #[.str "lookup"] => pure .lookup
+  | .arr #[.str "early", e] => do pure (.early (← parseExc e))
+  | _ => throw "bad site"
+
+def parseDict (j : Json) : Except String Dict := do
+  (← j.getArr?).toList.mapM fun x => do
+    match x with
+    | .arr #[k, v] => pure ((← k.getStr?), (← v.getNat?))
+    | _ => throw "bad attr"
+
+def optJson : Option Nat → Json
+  | none => Json.null
+  | some n => toJson n
+
+def respJson : Except Exc Resp → Json
+  | .ok (.view t) => Json.arr #["resp", "view", toJson t]
+  | .ok (.self o st) => Json.arr #["resp", "self", toJson o, optJson st]
+  | .error e => Json.arr #["raise", toJson e.id]
+
+def seenJson : Option Seen → Json
+  | none => Json.null
+  | some s => Json.arr #[toJson s.context, optJson s.exception, optJson s.excInfo, optJson s.response]
+
+def main : IO Unit := jsonDriver fun j => do
+  let stmts ← (← (← j.getObjVal? "stmts").getArr?).toList.mapM parseStmt
+  let w ← parseWorld (← j.getObjVal? "world")
+  let site ← parseSite (← j.getObjVal? "site")
+  let req ← parseReq (← j.getObjVal? "req")
+  let comb ← natList (← j.getObjVal? "comb")
+  let ctxObj ← (← j.getObjVal? "ctxobj").getNat?
+  let d ← parseDict (← j.getObjVal? "attrs")
+  let res := excviewTween w stmts site req comb ctxObj d
+  let sp := expected w stmts site req comb ctxObj d
+  let regs := allRegs w.sec stmts
+  let reg := registerAll regs
+  let names := ["exception", "exc_info", "response"]
+  let (excOut, cands) : Json × List Nat := match res.caught with
+    | none => (Json.null, [])
+    | some e =>
+      let r' := excRequest req e comb
+      (outJson (callView reg clsExc r'), (candidates regs clsExc r').map DView.tag)
+  let derived := regs.map fun r =>
+    let dv := derive r
+    Json.arr #[toJson r.classifier, toJson r.tag, toJson dv.order, toJson dv.phash, toJson dv.preds.length, toJson dv.secured]
+  return Json.mkObj [
+    ("out", respJson res.outcome), ("seen", seenJson res.seen),
+    ("attrs", Json.arr (names.map fun k => optJson (dget res.attrs k)).toArray),
+    ("caught", match res.caught with | none => Json.null | some e => toJson e.id),
+    ("spec", Json.mkObj [("out", respJson sp.outcome), ("seen", seenJson sp.seen),
+                         ("attrs", Json.arr (names.map fun k => optJson (sp.attr k)).toArray)]),
+    ("main", match site with | .lookup => outJson (callView reg clsView req) | .early _ => Json.null),
+    ("exc", excOut), ("cands", toJson cands),
+    ("coherent", toJson (coherentB regs)), ("wf", toJson (w.ok && tagsUniqueB stmts && stmtsOkB stmts)),
+    ("derived", Json.arr derived.toArray)]
